@@ -9,4 +9,5 @@ for q in "$@"; do
   VERIF_NO_ESCALATE=1 timeout 1800 /verif/check $q --tier quick 2>&1 | grep -E "VIOLATION|^\[C" | head -4
 done
 git -C /repo checkout -- .
+python3 /verif/tools/gen_tables.py >/dev/null   # the generated tables follow the restored source
 rm -rf /verif/evidence; mv /verif/.build/evidence.bak /verif/evidence
